@@ -218,10 +218,25 @@ def reencOf (env : Env) : Reenc := fun xs =>
   | .ok b =>
     if b.length = (xs.map (·.1)).sum then .ok (colCells env (env.build b.cells)) else .error .assert
 
-/-- C01's theorem about the builders, as a hypothesis: the image built from `cs` is one of the builder images
-    and a query reads `cs` back from it. -/
+/-- basic type of a cell (`none`: NULL) -/
+def cellKind : Cell → Option Kind
+  | .null => none
+  | .int _ => some .int
+  | .float _ => some .float
+  | .str _ => some .str
+
+/-- single-typed cells: NULLs and values of basic type `k` (C07's domain: DESIGN.md §4 "supported fragment") -/
+def Uniform (k : Kind) (cs : List Cell) : Prop := ∀ c ∈ cs, cellKind c = none ∨ cellKind c = some k
+
+/-- the basic types a column can have -/
+def TypedK (k : Kind) : Prop := k = .int ∨ k = .float ∨ k = .str
+
+/-- C01's theorem about the builders, as a hypothesis: for single-typed cells `cs` the image built from them is one
+    of the builder images (`Img`: shape + library round trip), a query reads `cs` back from it, and its decoded basic
+    type is that of the cells (an all-NULL column is `Column::null`). -/
 def BuildOk (env : Env) : Prop :=
-  ∀ cs, ∃ v, Img env.dec (env.build cs) v ∧ cellsOf v = cs
+  ∀ (k : Kind) (cs : List Cell), TypedK k → Uniform k cs →
+    ∃ v, Img env.dec (env.build cs) v ∧ cellsOf v = cs ∧ (valKind v = none ∨ valKind v = some k)
 
 /-! ### line protocol (`hist` lines)
 
@@ -230,7 +245,7 @@ def BuildOk (env : Env) : Prop :=
                 (`F<k>`: the flush merged `k` partitions, as observed by the harness)
       obs     : the compaction inputs observed so far: compactions separated by `|`, columns by `;`,
                 `<col>=<type>~<signature>/<type>~<signature>…` (one entry per merged partition, in merge order)
-    output:  <machine: content after the history> TAB <spec: ingested rows> [TAB finding]
+    output:  <machine: content after the history> TAB <spec: ingested rows>
              both as  `cols:<names> rows:<row>;<row>…`  with columns sorted by name -/
 
 open LM.Proto
@@ -286,61 +301,25 @@ def showTable (names : List Name) (cols : List (List Cell)) : String :=
   let rows := (List.range n).map fun i => ",".intercalate (cols.map fun c => showCell (c.getD i .null))
   "cols:" ++ showList id names ++ " rows:" ++ (if rows.isEmpty then "[]" else ";".intercalate rows)
 
-/-! classifiers of the open findings, evaluated on the compaction inputs the harness observed
-    (`compact:input` sync point: section type `~` codec signature of every column image handed to the free
-    `decode`, per column in merge order) -/
-
-def hasSub (s sub : String) : Bool := (s.splitOn sub).length > 1
-
-/-- some op that needs the null map comes after `Nullable` in the codec -/
-def sigElementwiseAfterNullable (sig : String) : Bool :=
-  match sig.splitOn "Nullable" with
-  | _ :: rest => rest.any fun t => hasSub t "ToI64" || hasSub t "Add(" || hasSub t "Dict(" || hasSub t "Delta("
-  | [] => false
-
-def sigCompressed (sig : String) : Bool := hasSub sig "~LZ4(" || hasSub sig "~Pco("
-
-/-- a nullable column image is pushed while the rebuilt buffer has no bitmap yet: no all-NULL / absent image of the
-    column earlier in the same compaction -/
-def nullableWithoutBitmap : List String → Bool
-  | [] => false
-  | sig :: rest =>
-    if hasSub sig "Null~" then false
-    else if hasSub sig "Nullable" then true
-    else nullableWithoutBitmap rest
-
-def classifyObs (obs : String) : String :=
-  if obs = "-" then "" else
-  let cols : List (List String) :=
-    (obs.splitOn "|").flatMap fun comp => (comp.splitOn ";").map fun col =>
-      match col.splitOn "=" with
-      | [_, sigs] => sigs.splitOn "/"
-      | _ => []
-  let all := cols.flatten
-  if all.any (hasSub · "StrHexUnpack") then "compaction-hexpacked-todo"
-  else if all.any (fun s => hasSub s "LZ4(U16)" || hasSub s "LZ4(U32)" || hasSub s "LZ4(U64)") then "compaction-decode-lz4-narrow-type"
-  else if all.any (fun s => sigCompressed s && hasSub s "StrUnpack") then "compaction-decode-unpack-section0"
-  else if all.any sigElementwiseAfterNullable then "compaction-decode-nullmap-dropped"
-  else if cols.any nullableWithoutBitmap then "compaction-builder-nullmap-dropped"
-  else ""
+/-! The compaction inputs the harness observed (`compact:input` sync point: section type `~` codec signature of every
+    column image handed to the free `decode`, per column in merge order) are carried on the line for the record and for
+    replays; no finding is open, so nothing is classified. -/
 
 def stepHist (toks : List String) : String :=
   match toks with
-  | [obs, histT] =>
+  | [_obs, histT] =>
     match (histT.splitOn "|").mapM parseStep with
     | none => "bad-op\tbad-op"
     | some steps =>
       let bs := ingested steps
       let names := sortNames (batchesNames bs)
       let spec := showTable names (names.map (batchesCol bs ·))
-      let finding := classifyObs obs
-      -- the machine of `C07_history` with the re-encoding that the partial theorems establish (`idReenc`):
+      -- the machine of `C07_history` with the re-encoding `C07_rebuild_id` establishes (`idReenc`):
       -- freeze / batch / compact(k) / evict / restart of the model are exercised, not just the concatenation.
-      -- Where an open finding applies the real re-encoding is not the identity and the machine does not predict.
       let m := match run idReenc {} steps with
         | .ok t => showTable names (names.map (content t ·))
         | .error _ => "panic"
-      if finding = "" then m ++ "\t" ++ spec else "?\t" ++ spec ++ "\t" ++ finding
+      m ++ "\t" ++ spec
   | _ => "bad-op\tbad-op"
 
 end LM.C07M
